@@ -5,6 +5,16 @@ from .wrap import CanCustomize
 
 class BoundCallable(CanCustomize, object):
     def __init__(self, executor, fn):
+        try:
+            update_wrapper(self, fn)
+        except AttributeError:
+            # Update wrapper if we can, but not fatal if we can't
+            pass
+
+        # update_wrapper copies fn.__dict__ onto this object. Our own attributes
+        # are set afterwards so that attributes of fn can't override them
+        # (e.g. if fn is itself a BoundCallable, or happens to have a _name).
+        self.__dict__.pop("_name", None)
         self.__executor = executor
         self.__fn = fn
 
@@ -14,12 +24,6 @@ class BoundCallable(CanCustomize, object):
             if hasattr(executor, name_attr):
                 self._name = getattr(executor, name_attr)
                 break
-
-        try:
-            update_wrapper(self, fn)
-        except AttributeError:
-            # Update wrapper if we can, but not fatal if we can't
-            pass
 
     def __call__(self, *args, **kwargs):
         return self.__executor.submit(self.__fn, *args, **kwargs)
